@@ -9,6 +9,15 @@ static void dbl(const char* k, double v) {
     int e; double m = frexp(v, &e); uint64_t M = (uint64_t)ldexp(m, 53);
     fprintf(vh_out, "\"%s\":{\"m\":[%u,%u,%u,%u],\"e\":%d,\"s\":\"%.10g\"}", k, (unsigned)(M & 0xffff), (unsigned)((M >> 16) & 0xffff), (unsigned)((M >> 32) & 0xffff), (unsigned)((M >> 48) & 0xffff), e - 53, v);
 }
+static void print_fields(int32_t lam) {
+    TFheGateBootstrappingParameterSet* p = new_default_gate_bootstrapping_parameters(lam);
+    const TGswParams* g = p->tgsw_params; const TLweParams* t = g->tlwe_params; const LweParams* in = p->in_out_params;
+    fprintf(vh_out, "\"ret\":1,"); vh_i("n", in->n); VH_C; dbl("ks_stdev", in->alpha_min); VH_C; dbl("in_max", in->alpha_max); VH_C;
+    vh_i("N", t->N); VH_C; vh_i("kk", t->k); VH_C; dbl("bk_stdev", t->alpha_min); VH_C; dbl("bk_max", t->alpha_max); VH_C;
+    vh_i("l", g->l); VH_C; vh_i("Bgbit", g->Bgbit); VH_C; vh_i("Bg", g->Bg); VH_C; vh_i("halfBg", g->halfBg); VH_C; vh_i("maskMod", (long)g->maskMod); VH_C; vh_i("kpl", g->kpl); VH_C;
+    vh_w("offset", g->offset); VH_C; fputs("\"h\":[", vh_out); for (int i = 0; i < g->l; i++) fprintf(vh_out, "%s[%u,%u]", i ? "," : "", (uint32_t)g->h[i] >> 16, (uint32_t)g->h[i] & 0xffff); fputs("],", vh_out);
+    vh_i("ks_t", p->ks_t); VH_C; vh_i("ks_basebit", p->ks_basebit); VH_C; vh_i("ext_n", t->extracted_lweparams.n); VH_C; dbl("ext_min", t->extracted_lweparams.alpha_min); VH_C; dbl("ext_max", t->extracted_lweparams.alpha_max);
+}
 int main(int argc, char** argv) {
     vh_init();
     std::vector<long> ls; for (long l = -5; l <= 300; l++) ls.push_back(l); ls.push_back(INT_MIN); ls.push_back(INT_MAX); ls.push_back(INT_MIN + 1);
@@ -18,13 +27,7 @@ int main(int argc, char** argv) {
         pid_t pid = fork();
         if (pid == 0) {
             close(fd[0]); vh_out = fdopen(fd[1], "w"); int devnull = open("/dev/null", 1); dup2(devnull, 2);
-            TFheGateBootstrappingParameterSet* p = new_default_gate_bootstrapping_parameters((int32_t)lam);
-            const TGswParams* g = p->tgsw_params; const TLweParams* t = g->tlwe_params; const LweParams* in = p->in_out_params;
-            fprintf(vh_out, "\"ret\":1,"); vh_i("n", in->n); VH_C; dbl("ks_stdev", in->alpha_min); VH_C; dbl("in_max", in->alpha_max); VH_C;
-            vh_i("N", t->N); VH_C; vh_i("kk", t->k); VH_C; dbl("bk_stdev", t->alpha_min); VH_C; dbl("bk_max", t->alpha_max); VH_C;
-            vh_i("l", g->l); VH_C; vh_i("Bgbit", g->Bgbit); VH_C; vh_i("Bg", g->Bg); VH_C; vh_i("halfBg", g->halfBg); VH_C; vh_i("maskMod", (long)g->maskMod); VH_C; vh_i("kpl", g->kpl); VH_C;
-            vh_w("offset", g->offset); VH_C; fputs("\"h\":[", vh_out); for (int i = 0; i < g->l; i++) fprintf(vh_out, "%s[%u,%u]", i ? "," : "", (uint32_t)g->h[i] >> 16, (uint32_t)g->h[i] & 0xffff); fputs("],", vh_out);
-            vh_i("ks_t", p->ks_t); VH_C; vh_i("ks_basebit", p->ks_basebit); VH_C; vh_i("ext_n", t->extracted_lweparams.n); VH_C; dbl("ext_min", t->extracted_lweparams.alpha_min); VH_C; dbl("ext_max", t->extracted_lweparams.alpha_max);
+            print_fields((int32_t)lam);
             fflush(vh_out); _exit(0);
         }
         close(fd[1]);
@@ -36,6 +39,9 @@ int main(int argc, char** argv) {
         if (!body.empty() && !WIFSIGNALED(st)) printf(",%s", body.c_str());
         printf("}\n");
     }
+    // the same requests inside one process, in both orders (a selector that keeps state between calls shows here)
+    int seqs[] = {80, 128, 80, 1, 128, 81, 40, 100};
+    for (int lam : seqs) { printf("{\"k\":\"sel\",\"lam\":%d,\"outcome\":\"return\",\"sig\":0,", lam); fflush(stdout); vh_out = stdout; print_fields(lam); printf("}\n"); }
     fflush(stdout);
     return 0;
 }
